@@ -631,3 +631,38 @@ spec("C03", jobs=c03_jobs,
      rule="every operation sequence up to the depth bound; distinct_nontrivial = distinct outcome signatures (who ran which operation "
           "and what it received); states = distinct model states (current, statuses, callers, parents, remaining budget)",
      assumptions=["operations are issued only when their documented preconditions hold (target running and suspended, parent alive for exit/return)"])
+
+
+# ----------------------------------------------------------------------------- C15
+def c15_jobs(tier):
+    def j(name, cfg="asan", bmax=0, workers=None, **o):
+        d = dict(name=name, harness="c15_random", cfg=cfg, opts=o, bound_min=0, bound_max=bmax, deadline=1500,
+                 crash_is_violation=True, recycle=1000)
+        if workers:
+            d["workers"] = workers
+        return d
+    jobs = [j("identity", mode="identity"), j("identity-O2", "rel", mode="identity"),
+            j("history", mode="history", hist=3 if tier == "quick" else 4),
+            j("history-O2", "rel", mode="history", hist=3),
+            j("threads-2", bmax=2, mode="threads", nthreads=2),
+            j("threads-3", bmax=1 if tier == "quick" else 2, mode="threads", nthreads=3),
+            j("tsan-free-running", "tsan", workers=1, mode="free")]
+    return jobs
+
+
+spec("C15", jobs=c15_jobs,
+     technique="exhaustive comparison with an independent reference generator over a seed set; exhaustive enumeration of prior call histories; preemption-bounded exhaustive schedule search of concurrent samplers under a serialising scheduler, plus a free-running ThreadSanitizer pass",
+     level_text="(a) For all seeds in [0, 2^16), all 64 single-bit seeds and boundary seeds the first 64 raw outputs are compared bit for "
+                "bit with an independent sfc64 + splitmix64 implementation (20 discarded outputs). (b) Every prior history of up to 3-4 "
+                "calls over {flip x1/x7/x64, gamma(0.5), gamma(2.5), geometric, normal, exponential, alias, loaded dice, terminate, "
+                "initialize(other)} is followed by initialize(seed) and a probe that calls every sampling function; the probe's bit "
+                "patterns must equal those on a thread that never used the generator. (c) Two and three threads with different seeds "
+                "run the probe under a serialising scheduler with a scheduling point before every raw draw (hook H2); all interleavings "
+                "up to 2 preemptions; each thread's values must equal its solo values. (d) The same bodies run free under ThreadSanitizer.",
+     level_note="Trusted: the reference generator in harness/c15_random.c, the scheduler (engine/vx_sched.c), ThreadSanitizer. "
+                "'Every seed' is covered on 65 k + boundary seeds: the generator is branch-free integer arithmetic. The serialising "
+                "scheduler cannot see atomicity inside one statement; the TSan pass covers data races, its silence is not counted as exploration.",
+     budget=dict(quick=900, thorough=5400),
+     rule="identity: 66 blocks covering 65 607 seeds x 64 outputs; history: every sequence of prior calls up to the bound x 2 seeds; "
+          "threads: every schedule within the preemption bound; distinct_nontrivial = distinct outcome signatures",
+     assumptions=["hook H2's pre-draw callback is the only scheduling point inside a sampler"])
